@@ -170,41 +170,43 @@ Proof.
 Qed.
 
 (* ---------------------------------------------------------------- Orientation *)
-(* what the lazy path computes, for all shapes: indexed other.shape ++ self.shape,
+Lemma eager_order_swap ns no : eager_order ns no = swap_order ns no.
+Proof. reflexivity. Qed.
+
+(* what the lazy path computes, for all shapes: indexed self.shape ++ other.shape,
    flags never used *)
 Theorem ori_lazy_char k ss so (X Y S : list Rr) i j :
   (0 < k)%nat -> length X = size ss -> length Y = size so -> valid ss i -> valid so j ->
   let r := ori_dot_outer_lazy ROps k ss so X Y S in
-  fst r = so ++ ss /\ length (snd r) = size (so ++ ss) /\
-  aget 0 (so ++ ss) (snd r) (j ++ i)
+  fst r = ss ++ so /\ length (snd r) = size (ss ++ so) /\
+  aget 0 (ss ++ so) (snd r) (i ++ j)
   = sym_dot_lazy ROps S (qmul ROps (fst (aget (zq ROps, false) so Y j))
                                    (qconj ROps (fst (aget (zq ROps, false) ss X i)))).
 Proof.
-  intros Hk HX HY Hi Hj. unfold ori_dot_outer_lazy. cbn [fst snd].
-  split; [reflexivity|].
-  change (o_ofZ ROps 0) with 0.
+  intros Hk HX HY Hi Hj. unfold ori_dot_outer_lazy. cbv zeta. cbn [fst snd].
+  rewrite eager_order_swap, tr_shape_swap.
+  split; [reflexivity|]. split; [unfold transpose_nd; rewrite tab_length, tr_shape_swap; reflexivity|].
+  change (o_ofZ ROps 0) with 0. rewrite transpose_swap by assumption.
   destruct (blocked_outer_layout (fun y x => sym_dot_lazy ROps S (dq_mul ROps y x))
               (zq ROps) (zq ROps) 0 k so ss (map fst Y) (map (fun x => qconj ROps (fst x)) X) j i)
-    as [E L]; try rewrite map_length; try assumption.
-  split; [exact L|]. rewrite E. rewrite dq_mul_eq.
+    as [E _]; try rewrite map_length; try assumption.
+  rewrite E. rewrite dq_mul_eq.
   rewrite (aget_map' fst (zq ROps, false)) by assumption.
   rewrite (aget_map' (fun x => qconj ROps (fst x)) (zq ROps, false)) by assumption. reflexivity.
 Qed.
 
-(* the eager path when both operands have the same number of axes: indexed
-   self.shape ++ other.shape, flags used *)
+(* the eager path, all shapes: same layout, flags used *)
 Theorem ori_eager_char ss so (X Y S : list Rr) i j :
-  length ss = length so -> length X = size ss -> length Y = size so -> valid ss i -> valid so j ->
+  length X = size ss -> length Y = size so -> valid ss i -> valid so j ->
   let r := ori_dot_outer_eager ROps ss so X Y S in
-  fst r = ss ++ so /\
+  fst r = ss ++ so /\ length (snd r) = size (ss ++ so) /\
   aget 0 (ss ++ so) (snd r) (i ++ j)
   = sym_dot_eager ROps S (rmul ROps (aget (zq ROps, false) so Y j)
                                     (rinv ROps (aget (zq ROps, false) ss X i))).
 Proof.
-  intros Hn HX HY Hi Hj. unfold ori_dot_outer_eager. cbn [fst snd].
-  assert (Ho : eager_order (length ss) (length so) = swap_order (length ss) (length so)).
-  { unfold eager_order, swap_order. rewrite Hn. reflexivity. }
-  rewrite Ho. split; [apply tr_shape_swap|].
+  intros HX HY Hi Hj. unfold ori_dot_outer_eager. cbv zeta. cbn [fst snd].
+  rewrite eager_order_swap. split; [apply tr_shape_swap|].
+  split; [unfold transpose_nd; rewrite tab_length, tr_shape_swap; reflexivity|].
   change (o_ofZ ROps 0) with 0. rewrite transpose_swap by assumption.
   rewrite map_outer.
   rewrite (outer_get (fun a b => sym_dot_eager ROps S (rmul ROps a b)) (zq ROps, false)
@@ -213,23 +215,6 @@ Proof.
   rewrite aget_map. reflexivity.
 Qed.
 
-(* FINDING (layout): operands of different sizes give different shapes *)
-Theorem awo_lazy_layout_refuted :
-  exists k ss so (X Y S : list Rr),
-    (0 < k)%nat /\ length X = size ss /\ length Y = size so /\ length ss = length so /\
-    fst (awo_lazy ROps k ss so X Y S) <> fst (awo_eager ROps ss so X Y S).
-Proof.
-  exists 1%nat, [2%nat], [3%nat], (repeat (qone ROps, false) 2), (repeat (qone ROps, false) 3),
-    [(qone ROps, false)].
-  repeat split; try reflexivity; try lia.
-  unfold awo_lazy, awo_lazy_with, awo_eager, awo_eager_with, ori_dot_outer_eager. cbn [fst].
-  cbv [tr_shape eager_order length seq app map nth]. discriminate.
-Qed.
-
-Lemma aget_drop_flags d ss (X : list Rr) i :
-  aget (fst d, false) ss (drop_flags X) i = (fst (aget d ss X i), false).
-Proof. unfold aget, drop_flags. apply (map_nth (fun x => (fst x, false))). Qed.
-
 Lemma aget_Forall {A} (P : A -> Prop) d s xs idx :
   Forall P xs -> length xs = size s -> valid s idx -> P (aget d s xs idx).
 Proof.
@@ -237,32 +222,42 @@ Proof.
   rewrite HL. apply ravel_lt; assumption.
 Qed.
 
-(* OUTSIDE THE FINDINGS: same number of axes, unit quaternions, no improper
-   flag on other nor on the symmetry elements: the lazy result is exactly the
-   eager result with the two groups of axes exchanged, for every chunk size *)
-Theorem awo_lazy_is_swapped_eager k ss so (X Y S : list Rr) i j :
-  (0 < k)%nat -> length ss = length so -> length X = size ss -> length Y = size so ->
-  all_unit X -> all_unit Y -> all_unit S -> all_proper Y -> all_proper S ->
-  valid ss i -> valid so j ->
-  aget (ang ROps 0) (so ++ ss) (snd (awo_lazy ROps k ss so X Y S)) (j ++ i)
-  = aget (ang ROps 0) (ss ++ so) (snd (awo_eager ROps ss so X Y S)) (i ++ j).
+Lemma drop_flags_length (X : list Rr) : length (drop_flags X) = length X.
+Proof. apply map_length. Qed.
+
+(* layout of angle_with_outer: both modes return self.shape ++ other.shape, for
+   every pair of shapes (any numbers of axes) *)
+Theorem awo_layout k ss so (X Y S : list Rr) :
+  fst (awo_lazy ROps k ss so X Y S) = ss ++ so /\ fst (awo_eager ROps ss so X Y S) = ss ++ so /\
+  length (snd (awo_lazy ROps k ss so X Y S)) = size (ss ++ so) /\
+  length (snd (awo_eager ROps ss so X Y S)) = size (ss ++ so).
 Proof.
-  intros Hk Hn HX HY UX UY US PY PS Hi Hj.
-  unfold awo_lazy, awo_lazy_with, awo_eager, awo_eager_with. cbn [fst snd].
-  change (o_ofZ ROps 0) with 0.
-  (* lazy side *)
-  destruct (blocked_outer_layout (fun y x => ang ROps (sym_dot_lazy ROps S (dq_mul ROps y x)))
-              (zq ROps) (zq ROps) (ang ROps 0) k so ss (map fst Y) (map (fun x => qconj ROps (fst x)) X) j i)
-    as [E _]; try rewrite map_length; try assumption.
-  rewrite E. clear E. rewrite dq_mul_eq.
-  rewrite (aget_map' fst (zq ROps, false)) by assumption.
-  rewrite (aget_map' (fun x => qconj ROps (fst x)) (zq ROps, false)) by assumption.
-  (* eager side *)
-  rewrite aget_map.
-  assert (HXd : length (drop_flags X) = size ss) by (unfold drop_flags; rewrite map_length; exact HX).
-  destruct (ori_eager_char ss so (drop_flags X) Y S i j Hn HXd HY Hi Hj) as [_ E].
-  change (o_ofZ ROps 0) with 0 in E. rewrite E. clear E. f_equal.
-  unfold drop_flags. rewrite (aget_map' (fun x => (fst x, false)) (zq ROps, false)) by assumption.
+  unfold awo_lazy, awo_lazy_with, awo_eager, awo_eager_with, ori_dot_outer_lazy, ori_dot_outer_eager.
+  cbv zeta. cbn [fst snd]. rewrite eager_order_swap, tr_shape_swap, !map_length.
+  unfold transpose_nd. rewrite !tab_length, tr_shape_swap. repeat split; reflexivity.
+Qed.
+
+(* OUTSIDE THE FINDING (unit quaternions, no improper flag on `other` nor on the
+   symmetry elements; flags of self are dropped by both modes):
+   angle_with_outer(lazy=True, chunk_size=k) = angle_with_outer(lazy=False),
+   shape and values, every chunk size, every pair of shapes *)
+Theorem awo_lazy_eq_eager k ss so (X Y S : list Rr) :
+  (0 < k)%nat -> length X = size ss -> length Y = size so ->
+  all_unit X -> all_unit Y -> all_unit S -> all_proper Y -> all_proper S ->
+  awo_lazy ROps k ss so X Y S = awo_eager ROps ss so X Y S.
+Proof.
+  intros Hk HX HY UX UY US PY PS.
+  destruct (awo_layout k ss so X Y S) as [F1 [F2 [L1 L2]]].
+  apply injective_projections; [rewrite F1, F2; reflexivity|].
+  apply (shaped_ext (ss ++ so) _ _ (ang ROps 0)); [exact L1|exact L2|].
+  intros idx Hv. destruct (valid_app_inv ss so idx Hv) as [Hi [Hj E]]. rewrite E.
+  set (i := firstn (length ss) idx) in *. set (j := skipn (length ss) idx) in *. clearbody i j.
+  unfold awo_lazy, awo_lazy_with, awo_eager, awo_eager_with. cbn [snd]. rewrite !aget_map. f_equal.
+  assert (HXd : length (drop_flags X) = size ss) by (rewrite drop_flags_length; exact HX).
+  destruct (ori_lazy_char k ss so (drop_flags X) Y S i j Hk HXd HY Hi Hj) as [_ [_ E1]].
+  destruct (ori_eager_char ss so (drop_flags X) Y S i j HXd HY Hi Hj) as [_ [_ E2]].
+  change (o_ofZ ROps 0) with 0 in *. rewrite E1, E2. clear E1 E2.
+  unfold drop_flags. rewrite !(aget_map' (fun x => (fst x, false)) (zq ROps, false)) by assumption.
   pose proof (aget_Forall _ (zq ROps, false) so Y j UY HY Hj) as Uy.
   pose proof (aget_Forall _ (zq ROps, false) so Y j PY HY Hj) as Py.
   pose proof (aget_Forall _ (zq ROps, false) ss X i UX HX Hi) as Ux.
@@ -273,6 +268,12 @@ Proof.
   - apply qmul_unit; [exact Uy|]. rewrite qnorm2_conj. exact Ux.
   - unfold all_unit, all_proper in *. rewrite Forall_forall in *. intros s Hs. split; auto.
 Qed.
+
+(* Orientation.get_distance_matrix = angle_with_outer(self, self) *)
+Corollary odm_lazy_eq_eager k s (X S : list Rr) :
+  (0 < k)%nat -> length X = size s -> all_unit X -> all_unit S -> all_proper X -> all_proper S ->
+  awo_lazy ROps k s s X X S = awo_eager ROps s s X X S.
+Proof. intros. apply awo_lazy_eq_eager; assumption. Qed.
 
 (* FINDING (improper flags): element level, carried to the arrays by the two
    characterisations above *)
@@ -331,7 +332,8 @@ Theorem lazy_chunk_independent k k' sA sB (A B : list Rr) (V : list Rv) (QA QB :
 Proof.
   intros Hk Hk' HA HB HV HQA HQB HU.
   unfold rot_outer_lazy, rot_vouter_lazy, qq_outer_lazy, qv_outer_lazy, vec_dot_outer_lazy,
-    ori_dot_outer_lazy, awo_lazy, awo_lazy_with.
+    awo_lazy, awo_lazy_with, ori_dot_outer_lazy. cbv zeta.
   repeat split; intros;
-    rewrite !blocked_outer_eq by (try rewrite map_length; assumption); reflexivity.
+    rewrite !blocked_outer_eq by (repeat (rewrite map_length || rewrite drop_flags_length); assumption);
+    reflexivity.
 Qed.
